@@ -70,7 +70,10 @@ Definition async_send (k p size dst : Z) : MX (list Z) :=
   let was_empty := match s_sendq s with [] => true | _ => false end in
   upd_sock k (fun s => s <| s_sendq := s_sendq s ++ [(f, p, b_id b, dst)] |>) ;;;
   (if was_empty then async_want_send (s_fd s) else ret tt) ;;;
-  ret [f].
+  ret [f; k; size; dst].
+
+Definition upd_todo_handle (id : Z) : MX unit :=
+  t <- get_todo id ;; put_todo id (t <| to_handle := false |>).
 
 Fixpoint release_all (names : list (Z * Z)) : MX unit :=
   match names with
@@ -108,9 +111,9 @@ Definition run_simple_op (r : raw) : MX unit :=
   (* 14 RELEASE_ALL : the user drops every BufferPtr it holds (in order of buffer names) *)
   | 14 => x <- get_ext ;; api opc (release_all (x_names x) ;;; ret [])
   (* 20 TCP_NEW s / 21 UDP_NEW s / 22 ACC_NEW s *)
-  | 20 => fresh_key a0 ;;; api opc (fd <- tcp_client_new ;; put_sock a0 (new_sock fd 1 <| s_peer := 100 + a0 |>) ;;; ret [])
-  | 21 => fresh_key a0 ;;; api opc (fd <- udp_new ;; put_sock a0 (new_sock fd 2) ;;; ret [])
-  | 22 => fresh_key a0 ;;; api opc (fd <- acceptor_new ;; put_sock a0 (new_sock fd 3) ;;; ret [])
+  | 20 => fresh_key a0 ;;; api opc (fd <- tcp_client_new ;; put_sock a0 (new_sock fd 1 <| s_peer := 100 + a0 |>) ;;; ret [fd; a0])
+  | 21 => fresh_key a0 ;;; api opc (fd <- udp_new ;; put_sock a0 (new_sock fd 2) ;;; ret [fd; a0])
+  | 22 => fresh_key a0 ;;; api opc (fd <- acceptor_new ;; put_sock a0 (new_sock fd 3) ;;; ret [fd; a0])
   (* 23 TCP_SEND s size timeout -> n *)
   | 23 => s <- open_sock a0 1 ;; api opc (n <- sock_send (s_fd s) a1 a2 ;; ret [n])
   (* 24 TCP_RECV s size timeout -> n | -1 *)
@@ -126,11 +129,11 @@ Definition run_simple_op (r : raw) : MX unit :=
   | 27 => s <- open_sock a0 3 ;; fresh_key a2 ;;;
           api opc (r <- acceptor_listen (s_fd s) a1 ;;
                    match r with
-                   | Some (cfd, peer) => put_sock a2 (new_sock cfd 1 <| s_peer := peer |>) ;;; ret [1; peer]
+                   | Some (cfd, peer) => put_sock a2 (new_sock cfd 1 <| s_peer := peer |>) ;;; ret [1; peer; cfd; a2]
                    | None => ret [0]
                    end)
   (* 28 DESTROY s *)
-  | 28 => api opc (destroy_sock a0 ;;; ret [])
+  | 28 => api opc (destroy_sock a0 ;;; ret [a0])
   (* 30 BUFFERED_NEW s count size : wrap socket s (TCP or UDP) into its buffered variant *)
   | 30 => s <- get_sock a0 ;;
           if negb (s_open s) then bad 104 else api opc (rx <- make_buffered a0 a1 a2 ;; ret [rx])
@@ -153,15 +156,27 @@ Definition run_simple_op (r : raw) : MX unit :=
   (* 43 STOP *)
   | 43 => _ <- drv_alive ;; api opc (stop ;;; ret [])
   (* 50 TODO_NEW id kind value block *)
-  | 50 => _ <- drv_alive ;; api opc (todo_new a0 a1 a2 a3 ;;; ret [])
+  | 50 => _ <- drv_alive ;;
+          if a0 <? 0 then
+            (* anonymous ToDo: fresh identity, the handle is dropped at once (the task stays scheduled) *)
+            x <- get_ext ;;
+            let id := 1000 + x_ntodo x in
+            put_ext (x <| x_ntodo := x_ntodo x + 1 |>) ;;;
+            api opc (todo_new id a1 a2 a3 ;;; upd_todo_handle id ;;; ret [id; a1; a2])
+          else
+            x <- get_ext ;;
+            match aget a0 (x_todos x) with
+            | Some _ => bad 122                      (* identities are not reused *)
+            | None => api opc (todo_new a0 a1 a2 a3 ;;; ret [a0; a1; a2])
+            end
   (* 51 TODO_SHIFT id kind value / 52 TODO_CANCEL id *)
-  | 51 => t <- get_todo a0 ;; if to_handle t then api opc (todo_shift a0 a1 a2 ;;; ret []) else bad 121
-  | 52 => t <- get_todo a0 ;; if to_handle t then api opc (todo_cancel a0 ;;; ret []) else bad 121
+  | 51 => t <- get_todo a0 ;; if to_handle t then api opc (todo_shift a0 a1 a2 ;;; ret [a0; a1; a2]) else bad 121
+  | 52 => t <- get_todo a0 ;; if to_handle t then api opc (todo_cancel a0 ;;; ret [a0]) else bad 121
   (* 53 TODO_DROP id : the handle goes away; the task stays scheduled *)
-  | 53 => t <- get_todo a0 ;; put_todo a0 (t <| to_handle := false |>) ;;; report_ok opc []
+  | 53 => t <- get_todo a0 ;; put_todo a0 (t <| to_handle := false |>) ;;; report_ok opc [a0]
   (* 60 ASYNC_NEW s h1 h2 : SocketTcpAsync / SocketUdpAsync over buffered socket s, AcceptorAsync over acceptor s *)
   | 60 => s <- get_sock a0 ;; _ <- drv_alive ;;
-          if negb (s_open s) || s_async s then bad 105 else api opc (make_async a0 a1 a2 ;;; ret [])
+          if negb (s_open s) || s_async s then bad 105 else api opc (make_async a0 a1 a2 ;;; ret [a0])
   (* 61 ASYNC_SEND s p size -> future / 62 ASYNC_SENDTO s p size dst -> future *)
   | 61 => s <- open_sock a0 1 ;; if negb (s_async s) then bad 106 else api opc (async_send a0 a1 a2 0)
   | 62 => s <- open_sock a0 2 ;; if negb (s_async s) then bad 106 else api opc (async_send a0 a1 a2 a3)
@@ -173,7 +188,7 @@ Definition run_simple_op (r : raw) : MX unit :=
               put_ext (x <| x_acc := None |>) ;;;
               fresh_key a0 ;;;
               put_sock a0 (new_sock cfd 1 <| s_peer := peer |>) ;;;
-              api opc (_ <- make_buffered a0 a1 a2 ;; make_async a0 a3 a4 ;;; ret [1])
+              api opc (_ <- make_buffered a0 a1 a2 ;; make_async a0 a3 a4 ;;; ret [1; a0; cfd])
           end
   (* 64 HOLD : inside a receive handler — keep the buffer *)
   | 64 => x <- get_ext ;;
